@@ -9,7 +9,8 @@ it walks the AST, so ombott's rule parser is part of what is checked.
 """
 import re
 
-REGEXES = [r'[a-c]+', r'\d{2}', r'a|ab', r'[^/]*x', r'(a|b)c', 'é+', r'[a-z]+?(?=l)', r'\w+\.\w+', r'[^/]*']
+REGEXES = [r'[a-c]+', r'\d{2}', r'a|ab', r'[^/]*x', r'(a|b)c', 'é+', r'[a-z]+?(?=l)', r'\w+\.\w+', r'[^/]*',
+           r'-?\d+', r'-?\d+(\.\d+)?', '.+$']       # the last three are textually the masks of the int / float / path filters
 NAMES = ['x', 'y', 'z', 'id', 'name_1', '_p', 'Q', 'int', 're']
 LIT_SEGS = ['a', 'ab', 'abc', 'b', 'a1', 'é', 'a-b', 'a.b', 'c', 'end', '1', 'ba']
 
@@ -259,6 +260,7 @@ def sample_value(rng, filt, arg):
         r'[a-c]+': ['a', 'abc', 'cab', 'abd'], r'\d{2}': ['12', '007', '1'], r'a|ab': ['a', 'ab'],
         r'[^/]*x': ['x', 'aax', 'a/x'], r'(a|b)c': ['ac', 'bc', 'cc'], 'é+': ['é', 'ééé', 'e'],
         r'[a-z]+?(?=l)': ['al', 'profil', 'l'], r'\w+\.\w+': ['a.b', 'ab.1', 'a.'], r'[^/]*': ['', 'abc', 'a b'],
+        r'-?\d+': ['0042', '-7', '12', 'x'], r'-?\d+(\.\d+)?': ['1.50', '-3', '007', '1.'], '.+$': ['a/b', 'x', 'é/1'],
     }.get(arg, ['a']))
 
 
